@@ -293,4 +293,45 @@ def literalMatches (a : Atom) (s : Sys) : Bool :=
   if a.caseSensitive then a.pattern == subject a s
   else a.pattern.map asciiLower == (subject a s).map asciiLower
 
+/-! ### concrete glob terms (ASCII, `*` and `?` only) and the value of a whole expression
+
+Used by C11 to evaluate the target expressions of a top file independently of the real matcher
+(`fnmatch.translate` semantics for patterns without brackets: `*` any run of characters, `?` one
+character, everything else itself; the whole subject must match). -/
+
+def globMatch : Str → Str → Bool
+  | [], [] => true
+  | [], _ :: _ => false
+  | p :: ps, s =>
+    if p = '*' then
+      globMatch ps s || (match s with
+        | [] => false
+        | _ :: s' => globMatch (p :: ps) s')
+    else match s with
+      | [] => false
+      | c :: s' => (p = '?' || p = c) && globMatch ps s'
+termination_by p s => p.length + s.length
+
+/-- a pattern this concrete reading covers: no bracket expressions -/
+def plainGlob (p : Str) : Bool := !p.contains '[' && !p.contains ']'
+
+def globMatches (a : Atom) (s : Sys) : Bool :=
+  if a.caseSensitive then globMatch a.pattern (subject a s)
+  else globMatch (a.pattern.map asciiLower) ((subject a s).map asciiLower)
+
+/-- the documented value of a term on a concrete system, where this file defines one: literal and
+bracket-free glob terms on ASCII text (regular expressions and non-ASCII text: `none`) -/
+def atomValue (a : Atom) (s : Sys) : Option Bool :=
+  if !(isAscii a.pattern && isAscii (subject a s)) then none
+  else match a.kind with
+    | .literal => some (literalMatches a s)
+    | .glob => if plainGlob a.pattern then some (globMatches a s) else none
+    | .re => none
+
+/-- value of an expression, `none` if some term has no concrete value here -/
+def evalConcrete (e : Expr) (s : Sys) : Option Bool :=
+  if e.atoms.all (fun a => (atomValue a s).isSome) then
+    some (eval (fun a sys => (atomValue a sys).getD false) e s)
+  else none
+
 end Vinegar.Matcher
